@@ -278,6 +278,23 @@ func (r *runner) exec() {
 
 	shared := &metricdata.ResourceMetrics{}
 	collection := 0
+	// retained outputs (fresh ResourceMetrics per collection only): a data
+	// point that was consistent when Collect returned must stay what it was,
+	// whatever is recorded or collected afterwards
+	type retained struct {
+		n  int
+		rm *metricdata.ResourceMetrics
+		fp string
+	}
+	var kept []retained
+	defer func() {
+		for _, k := range kept {
+			if now := fmt.Sprintf("%+v", k.rm.ScopeMetrics); now != k.fp {
+				r.bad("collected_point_changed_later", "the data returned by Collect #%d changed after later measurements / collections:\nat collection time: %s\nnow:                %s", k.n, k.fp, now)
+				break
+			}
+		}
+	}()
 	for n, op := range c.Ops {
 		if op.C {
 			rm := shared
@@ -301,6 +318,9 @@ func (r *runner) exec() {
 				r.bad("wrong_data_type", "Collect #%d: %s", collection, p)
 			}
 			r.checkCollection(collection, pts)
+			if !c.Reuse {
+				kept = append(kept, retained{collection, rm, fmt.Sprintf("%+v", rm.ScopeMetrics)})
+			}
 			if !c.Cumulative {
 				r.sets[0].kept, r.sets[1].kept = nil, nil
 			}
